@@ -547,6 +547,37 @@ def check_seeding(run):
                                 f"value {p[name].value}, expected {want}",
                                 payload={"kind": "seed"},
                                 theorem="C18_ancillary_seeding")
+            # ... also when the common ancillaries are switched off, and
+            # through the Indentation method
+            for common_anc in (True, False):
+                for via in ("fit", "indent"):
+                    if via == "fit":
+                        q = guess_initial_parameters(
+                            idnt, model_key="nv_anc",
+                            common_ancillaries=common_anc,
+                            model_ancillaries=True)
+                        q0 = guess_initial_parameters(
+                            idnt, model_key="nv_anc",
+                            common_ancillaries=common_anc,
+                            model_ancillaries=False)
+                    else:
+                        q = idnt.get_initial_fit_parameters(
+                            model_key="nv_anc", common_ancillaries=common_anc,
+                            model_ancillaries=True)
+                        q0 = idnt.get_initial_fit_parameters(
+                            model_key="nv_anc", common_ancillaries=common_anc,
+                            model_ancillaries=False)
+                    for name in ("E", "R"):
+                        want = anc[name] if not math.isnan(anc[name]) \
+                            else q0[name].value
+                        if q[name].value != want:
+                            run.failing(
+                                SITE_A, f"seed:{name}:{anc}:{common_anc}:{via}",
+                                f"ancillary {name}={anc[name]} (common "
+                                f"ancillaries {common_anc}, via {via}) -> "
+                                f"initial value {q[name].value}, expected "
+                                f"{want}", payload={"kind": "rerun"},
+                                theorem="C18_ancillary_seeding")
             if "other" in p or set(p) != set(p0):
                 run.failing(SITE_A, f"seed:created:{anc}",
                             "seeding created a parameter",
